@@ -1762,7 +1762,7 @@ func c17Report(r *Run, h *c17Hist, seed uint64, kind, detail string, cfPass bool
 			cost += len(op.Content) / 4000
 		}
 		if kind == "script-hangs" {
-			cost += 8 // (a script that spins by forking sub-shells reaches its CPU limit only after many seconds of wall time)
+			cost += 40 // (a script that spins by forking sub-shells reaches its CPU limit only after many seconds of wall time)
 		}
 		budget -= cost
 		extra -= 1 + cost
